@@ -163,7 +163,42 @@ func runC13(c *Ctx) error {
 		var data []byte
 		cat := ""
 		caseT := ""
-		switch c.Rng.IntN(13) {
+		switch c.Rng.IntN(14) {
+		case 13: // transit frames (not addressed to this router, never authenticated by it) with every kind of
+			// source: the delivering peer, a known / unknown routable router, a privacy address, the
+			// internal range, an address outside the mesh; destinations whose best next hop may be the
+			// link the frame came from (would loop: an unreachable error is sent back — or cannot be)
+			cat = "transit"
+			srcs := []netip.Addr{P1.id.IP, known.IP, unknown.IP, netip.MustParseAddr("fdf0:1234:5678::9"), netip.MustParseAddr("fd80::77"), netip.MustParseAddr("fd00::5"), netip.MustParseAddr("2001:db8::2"), self}
+			var dst netip.Addr
+			switch c.Rng.IntN(5) {
+			case 0:
+				b := P1.id.IP.As16()
+				b[15] ^= byte(1 + c.Rng.IntN(200)) // a neighbour of P1's address: nearest route is via P1
+				dst = netip.AddrFrom16(b)
+			case 1:
+				dst = known.IP
+			case 2:
+				dst = netip.MustParseAddr("fdf0:1234:5678::10")
+			case 3:
+				dst = e.P2.id.IP
+			default:
+				b := [16]byte{0xfd}
+				copy(b[1:], randBytes(15))
+				dst = netip.AddrFrom16(b)
+			}
+			ty := []frame.MessageType{frame.NetworkTraffic, frame.RouterCtrl, frame.SessionCtrl, frame.SessionData, frame.RouterPing, frame.MessageType(9)}[c.Rng.IntN(6)]
+			f, err := craftBuilder.NewFrameV1(srcs[c.Rng.IntN(len(srcs))], dst, ty, nil, randBytes(1+c.Rng.IntN(60)), nil)
+			if err != nil {
+				continue
+			}
+			f.SetTTL(uint8(c.Rng.IntN(5)))
+			if c.Rng.IntN(2) == 0 {
+				f.SetTTL(32)
+			}
+			d, _ := f.FrameDataWithMargins(0, 0)
+			data = append([]byte(nil), d...)
+			f.ReturnToPool()
 		case 12: // valid but repeated responses to an outstanding request of this router
 			cat = "repeated-valid-response"
 			e.w.queue = nil
